@@ -1,19 +1,23 @@
 //! C18 — registration is validated and makes items reachable where declared.
 //!
-//! Enumerated: every library (item tree) with at most N items, module nesting
-//! at most 2, over the item kinds {module, clone type `Val<A>`, copy type
-//! `Val<B>`, function (mentioning no type / `Val<A>` / `Val<B>`), method and
-//! static method in an impl block for `u32` / `Val<A>` / `Val<B>`, constant of
-//! type `u32` / `Val<A>` / `Val<B>`, `use` declaration}; every equality pattern
-//! of valid names and every single invalid name; every distribution of the
+//! Enumerated (`space.rs`): every library (unordered item tree) with at most 4
+//! items, module nesting at most 2, over the item kinds {module, clone type
+//! `Val<A>`, copy type `Val<B>`, function (mentioning no type / `Val<A>` /
+//! `Val<B>`), method and static method in an impl block for `u32` / `Val<A>` /
+//! `Val<B>`, constant of type `u32` / `Val<A>` / `Val<B>`, `use` declaration
+//! (empty path, built-in enum variant, nothing, or the absolute path — up to 3
+//! segments — of any other item of the library)}; every equality pattern of
+//! the valid names and every single invalid name; every distribution of the
 //! top-level items over 1-2 `Runtime::add` calls; every permutation of the
 //! items of every add and of every module. Libraries with more than one
-//! injected defect are left out (counted).
+//! injected defect are left out (counted). Tier bounds: `bounds()`.
+//! One more unit runs the `library!` macro forms (`macros.rs`).
 //!
 //! Oracle: `model.rs` predicts Ok/Err of the constructors and of every add;
-//! the implementation must agree and must not panic. After Ok a generated
-//! script reaches every item at every path the model binds (and must get the
-//! item's tag) and at paths the model does not bind (must be a compile error).
+//! the implementation (`real.rs`) must agree and must not panic. After Ok a
+//! generated script (`probe.rs`) reaches every item at every path the model
+//! binds (and must get the item's tag) and at paths the model does not bind
+//! (must be a compile error). All permutations must give the same outcome.
 
 use std::sync::OnceLock;
 use vcore::{Cfg, Check, Cx, Finding, Meta, Tier, Value, Violation, json};
@@ -40,8 +44,10 @@ pub struct Bounds {
     two_adds_items: usize,
     /// ... with valid names only
     two_adds_items_valid_names: usize,
-    /// of the libraries with more than `all_names_items` items keep only those
-    /// that contain a `use` path of three segments
+    /// of the libraries with more than `all_names_items` items: those with a
+    /// `use` path of three segments get every equality pattern of valid names,
+    /// the others that contain a module get all-distinct valid names, the
+    /// flat ones are left out
     large_only_with_long_use: bool,
 }
 
@@ -58,6 +64,9 @@ impl Bounds {
         let n = s.named().len();
         if s.nodes.len() <= self.all_names_items {
             space::patterns(n).len()
+        } else if self.large_only_with_long_use && s.max_use_path() < 3 {
+            // with a module: all names distinct; flat ones are left to the thorough tier
+            if s.modules().is_empty() { 0 } else { 1 }
         } else {
             space::n_valid_patterns(n)
         }
@@ -103,10 +112,7 @@ fn plan(tier: Tier) -> &'static Plan {
     };
     cell.get_or_init(|| {
         let b = bounds(tier);
-        let mut skels = space::skeletons(b.max_items);
-        if b.large_only_with_long_use {
-            skels.retain(|s| s.nodes.len() <= b.all_names_items || s.max_use_path() >= 3);
-        }
+        let skels = space::skeletons(b.max_items);
         let mut units = vec![];
         let mut start = 0;
         let mut acc = 0u64;
@@ -480,6 +486,20 @@ impl Check for C18 {
         plan(cfg.tier).units.len() + 1
     }
     fn run_unit(&self, unit: usize, cx: &mut Cx) {
+        if !cx.case(vcore::SUB_SETUP) {
+            return;
+        }
+        if let Err(p) = real::base_runtime() {
+            cx.transitions(1);
+            cx.violation(
+                "panic",
+                vcore::SUB_SETUP,
+                json!({"library": "let mut rt = Runtime::new();\n", "uses": [], "model_defects": []}),
+                json!({"summary": "Runtime::new() returns", "steps": ["ok"]}),
+                json!({"summary": format!("PANIC: {p}"), "steps": ["panic"], "error": p}),
+            );
+            return;
+        }
         let pl = plan(cx.cfg.tier);
         if unit == pl.macro_unit {
             macros::run(cx);
@@ -489,6 +509,9 @@ impl Check for C18 {
     }
     fn describe(&self, cfg: &Cfg, unit: usize, sub: u64) -> Value {
         let pl = plan(cfg.tier);
+        if sub == vcore::SUB_SETUP {
+            return json!({"library": "let mut rt = Runtime::new();\n", "uses": [], "model_defects": []});
+        }
         if unit == pl.macro_unit {
             return macros::describe(sub);
         }
@@ -515,7 +538,7 @@ impl Check for C18 {
             bounds: json!({
                 "max_items": b.max_items,
                 "max_items_with_an_invalid_name": b.all_names_items,
-                "libraries_with_more_items_only_if_they_have_a_use_path_of_3_segments": b.large_only_with_long_use,
+                "libraries_with_more_items_restricted_to": if b.large_only_with_long_use { "a use path of 3 segments (valid names, every equality pattern) or a module (all-distinct valid names)" } else { "-" },
                 "max_items_when_two_adds": b.two_adds_items_valid_names,
                 "max_items_when_two_adds_and_an_invalid_name": b.two_adds_items,
                 "module_nesting": space::MAX_NEST,
@@ -560,16 +583,7 @@ impl Check for C18 {
         }
     }
     fn preflight(&self, _cfg: &Cfg) -> Result<(), String> {
-        if std::env::var("C18_PLAN_TIME").is_ok() {
-            let t = std::time::Instant::now();
-            let sk = space::skeletons(4);
-            eprintln!("skeletons(4): {} in {:?}", sk.len(), t.elapsed());
-            let t = std::time::Instant::now();
-            let b = bounds(Tier::Thorough);
-            let w: u64 = sk.iter().map(|s| weight(s, &b)).sum();
-            eprintln!("weights: {} in {:?}", w, t.elapsed());
-            return Err("plan time only".into());
-        }
+        // development aid: C18_COUNT=1 prints the size of both tiers and stops
         if std::env::var("C18_COUNT").is_ok() {
             for tier in [Tier::Quick, Tier::Thorough] {
                 let b = bounds(tier);
